@@ -2,6 +2,7 @@ import CCT.Model.Signing
 import CCT.Model.Keys
 import CCT.Model.Construct
 import CCT.Model.Cli
+import CCT.Model.SignSteps
 import CCT.Ref.Crypto
 import Std.Data.HashMap
 /-!
@@ -390,6 +391,21 @@ def handle (memo : Memo) (line : String) : Memo × String :=
             (memo, showOutcome o ++ " exit=" ++ toString (exitStatus .script o) ++ " file=" ++ (match f with | some b => hexStr b | none => "-"))
           | none => (memo, "X bad-args")
         | none => (memo, "X bad-args")
+      | _ => (memo, "X bad-args")
+    | "signsteps" =>
+      -- signsteps <file bytes | -> <key value> <fault index | ->   →  <result> opens=<r/w letters> file=<hex | ->
+      match args with
+      | f :: rest =>
+        let fb : Option (Option Bytes) := if f == "-" then some none else (parseHexBytes f).map some
+        match fb, parseVal rest.dropLast, rest.getLast? with
+        | some file, some (.j key, []), some flt =>
+          let fault : Option Nat := if flt == "-" then none else flt.toNat?
+          let (r, st) := runSignRepo C key file fault
+          let rs := match r with | .done => "done" | .failed e => "failed:" ++ e.name | .injected i => "injected:" ++ toString i
+          let os := String.ofList (st.opens.map fun o => match o with | .read => 'r' | .write => 'w')
+          (memo, rs ++ " opens=" ++ os ++ " file=" ++ (match st.file with | some b => hexStr b | none => "-") ++ " steps=" ++ toString (signPlan file).length)
+        | some _, some (_, []), some _ => (memo, "failed:ArgError opens= file=" ++ (if f == "-" then "-" else (match f.toList with | 'x' :: r => String.ofList r | l => String.ofList l)) ++ " steps=0")
+        | _, _, _ => (memo, "X bad-args")
       | _ => (memo, "X bad-args")
     | "build" =>
       -- build <which> <y m d H M S>x2 <args as a list value, "O99" standing for an omitted optional argument>
